@@ -3,7 +3,7 @@ use crate::ast::meta::{self, FromMetaError, Meta};
 use crate::io::{BinRead, BinWrite, BinReader, BinWriter, Encoded, ReadResult, WriteResult, DEFAULT_ENCODING};
 use crate::diagnostic::{Emitter};
 use crate::error::{GatherErrorIteratorExt, ErrorReported};
-use crate::game::Game;
+use crate::game::{Game, LanguageKey};
 use crate::llir::AcceleratingByteMask;
 use crate::pos::{Sp};
 use crate::context::CompilerContext;
@@ -247,10 +247,22 @@ fn compile<E: Entry>(
     ast: &ast::ScriptFile,
     ctx: &mut CompilerContext,
 ) -> Result<MissionMsg<E>, ErrorReported> {
+    // (check this before any pass runs; the passes below assume that there is no code)
+    ast.items.iter().map(|item| match &item.value {
+        ast::Item::Meta { keyword: sp_pat!(ast::MetaKeyword::Entry), .. } => Ok(()),
+        ast::Item::ConstVar { .. } => Ok(()),
+        _ => Err(ctx.emitter.emit(error!(
+            message("feature not supported by format"),
+            primary(item, "not supported by mission.msg"),
+        ))),
+    }).collect_with_recovery::<()>()?;
+
     let ast = {
         let mut ast = ast.clone();
 
         // reduced set of passes because only compile-time stuff is possible
+        // (there are no instructions or registers; const expressions are resolved as in MSG files)
+        crate::passes::resolution::assign_languages(&mut ast, LanguageKey::Msg, ctx)?;
         crate::passes::resolution::resolve_names(&ast, ctx)?;
         crate::passes::type_check::run(&ast, ctx)?;
         crate::passes::evaluate_const_vars::run(ctx)?;
